@@ -271,9 +271,10 @@ def seed_fault(version, fault, pos, exhaustive=False):
             a.find("value").text = foreign
         desc = f"{n.findtext('name')} inLibrary={foreign}"
     elif fault in ("hed-id-out-of-range", "hed-id-changed", "hed-id-malformed"):
-        if version != "8.3.0":
+        if version != "8.3.0" and not (fault == "hed-id-out-of-range" and version == "score_2.0.0"):
             return None
-        root.set("version", "8.4.0")
+        if not (fault == "hed-id-out-of-range" and pos % 2 == 0) and version == "8.3.0":
+            root.set("version", "8.4.0")        # (the 'changed since the last release' rule needs a later version)
         n = pick(nodes)
         if n is None:
             return None
@@ -282,7 +283,7 @@ def seed_fault(version, fault, pos, exhaustive=False):
             return None
         old = a.find("value").text
         if fault == "hed-id-out-of-range":
-            a.find("value").text = "HED_0099999"
+            a.find("value").text = ["HED_0099999", "HED_0000000", "HED_0000001", "HED_0090000"][(pos // 2) % 4]
         elif fault == "hed-id-changed":
             num = int(old[4:])
             a.find("value").text = "HED_%07d" % (num + 1 if num % 2 else num - 1)
